@@ -9,15 +9,19 @@ What is proved:
                                second: they are ordered by a release→acquire edge, so there is no data race on f.
   * no_race_partial            the same as a statement about `Race`.
   * table_obeys_discipline     `decide` over the access table REGENERATED from /repo's AST on every run (Gen/Locks.lean,
-                               extract/locks.go): for the explicit list of shared fields (Server idleConns/ln/done/
-                               concurrency/open/stop, workerPool ready/workersCount/mustStop, perIPConnCounter.m,
-                               HostClient conns/connsCount/connsWait/connsCleanerRun/pending*, Client m/ms, cache manager
-                               maps/pendingFiles/closed, fsFile.readersCount, LBClient.cs, lbClient penalty/total,
-                               PipelineClient connClients, pipelineConnClient.chs, pipelineConnChannels.users, TCPDialer
-                               map and entry fields) every syntactic access site holds the field's mutex (or is atomic /
-                               initialisation / a documented exemption), nothing is unclassified, and every listed field
-                               still has access sites.  A code change that touches a listed field without its lock, or
-                               that the analysis cannot classify, breaks this theorem.
+                               extract/locks.go).  Fields: an explicit list (Server idleConns/ln/done/concurrency/open/stop/
+                               TLSConfig/concurrencyCh/…, workerPool ready/workersCount/mustStop, perIPConnCounter.m, HostClient
+                               conns/connsCount/connsWait/connsCleanerRun/pending*/addrs/addrIdx/tlsConfigMap/…, Client m/ms,
+                               cache manager maps/pendingFiles/closed, fsFile.readersCount/bigFiles, LBClient.cs, lbClient
+                               penalty/total, PipelineClient connClients, pipelineConnClient chs/tlsConfig, wantConn*, TCPDialer
+                               map and entry fields, …) PLUS, inferred on every run, EVERY field of a package struct that is
+                               written while a mutex is held somewhere (then every access, reads included, must hold that
+                               mutex) and every field accessed atomically somewhere (then every access must be atomic).
+                               Every syntactic access site holds the field's mutex (or is atomic / initialisation / one of the
+                               exceptions listed with their reasons in extract/locks.go: ctorAllow, exemptAllow,
+                               noGuardInference), nothing is unclassified, and every listed field still has access sites.
+                               A code change that touches such a field without its lock — a new lock-free "fast path" read
+                               included — or that the analysis cannot classify, breaks this theorem.
 What is NOT proved (named residue — this is why the level is "partial" and why this is the weakest claim):
   * that the executions of the Go program are traces of the model in which the syntactically held locks are really
     held (the go/ast lock analysis is trusted: same-function Lock…Unlock, helpers judged by the locks held at all their
@@ -25,7 +29,11 @@ What is NOT proved (named residue — this is why the level is "partial" and why
   * fields outside the list, byte-slice and map aliasing (a map handed to a helper is judged at the hand-over only),
     RequestCtx retention rules, sync.Pool hand-over, channels;
   * atomic accesses are taken as race-free by the Go memory model, not modelled;
-  * exempt rows (RequestCtx.Done reading Server.done, ordered by the `open` counter) are documented, not proved.
+  * exempt rows (RequestCtx.Done reading Server.done, ordered by the `open` counter; TimeoutHandler reading
+    Server.concurrencyCh, written once under s.mu before the reader's Serve/ServeConn serves; Client.hostClient reading the
+    map handles after mOnce) and perIPConn.Conn (lock only makes Close idempotent) are documented, not proved;
+  * a field whose EVERY write lost its lock at once is still caught only if it is on the explicit list (the inference
+    needs one locked write to learn the guard) — the fields inferred on the pinned tree were therefore made explicit.
 `C37_full` (no data race in any documented schedule) is therefore NOT claimed; when the table theorem breaks, the check
 searches for a concrete racing schedule with the Go race detector (harness c37).
 -/
@@ -84,7 +92,7 @@ theorem no_race_partial (L : Field → Lock) (tr : List Ev) (hwf : WF tr) (hd : 
 theorem table_obeys_discipline : tableOK Gen.lockSpec Gen.lockRows = true := by decide +kernel
 
 /-- the table is not empty and lists the fields the property names -/
-theorem table_nonempty : 100 ≤ Gen.lockRows.length ∧ 30 ≤ Gen.lockSpec.length := by decide +kernel
+theorem table_nonempty : 250 ≤ Gen.lockRows.length ∧ 55 ≤ Gen.lockSpec.length := by decide +kernel
 
 /-- the property at full strength: not claimed (see header) -/
 def C37_full : Prop :=
